@@ -99,6 +99,13 @@ var plans = map[string]*plan{
 		Rule:   "each scenario = one tape: a history in a clone (writes to LFS and non-LFS paths, duplicates, deletes, renames, branches, merges, tags, orphan branches, tracking changes, dated commits) interleaved with pushes (git push branch / --all / --tags / --force / --delete, second remote, git lfs push ref / --all), local objects lost before a push (with/without a copy on the server), allowincompletepush on/off, batch size 1/2/3/100, concurrency; server faults keyed by request (batch 5xx/429, PUT 4xx/5xx/422/stored-reply-lost, verify 4xx/5xx, per-object errors). After every push that exits 0 and moved a remote ref, git plumbing on the bare remote lists every reachable pointer blob and the server store must hold each with matching SHA-256. Every scenario is non-trivial; distinct = distinct choice trace + process outcomes.",
 		Real:   realB, Stub: stubB,
 		Assume: []string{"ground truth about referenced pointers comes from git rev-list/cat-file and the harness's own strict pointer reader, never from git-lfs", "file:// standalone remotes are not covered by this check"},
+		Extra: &plan{
+			ID: "C03", Engine: "A", Level: "exploration",
+			Stages: []stage{{"C03.queue", 30000, 800000}},
+			Rule:   "the upload half of a push from inside the process: the real transfer queue, batch client and basic upload adapter against the simulated server under the gate scheduler (1-6 objects, repeats, batch size, concurrency, retry budget, 429 / Retry-After, expired actions, PUT and verify failures, lost replies, latency, scheduler mode, every interleaving decision drawn). When the queue reports no error - the condition under which git push goes on to update the ref - every object added must be in the server's store with matching SHA-256 (objects the server itself declared unnecessary excepted).",
+			Real:   realA, Stub: stubA,
+			Assume: []string{"'the push succeeds' is represented by: Wait() returned and Errors() is empty"},
+		},
 	},
 	"C04": {
 		ID: "C04", Engine: "B", Level: "exploration",
